@@ -80,7 +80,7 @@ Step(op, s, i, k, v, p, kd) ==
     \* ---- operations whose argument is the container itself or one of its own entries (property C04: as if the argument
     \*      had been copied first); never generated by the C02 check
     [] op = "swapself" -> {Out(s, i, q, NoRes, NoB)}
-    [] op = "assignself" /\ MS -> {Out(s, i, FreshCopy(q), NoRes, NoB)}
+    [] op = "assignself" /\ MS -> {Out(s, i, q, NoRes, NoB), Out(s, i, FreshCopy(q), NoRes, NoB)}      \* kept or re-created
     [] op = "appendself" /\ K = "hashset" -> {Out(s, i, q, NoRes, NoB)}
     [] op = "rmself" /\ K = "hashset" -> {Out(s, i, <<>>, NoRes, NoB)}
     [] op = "appendown" /\ MS /\ p \in 0..(n - 1) /\ k \in 0..(n - 1) ->            \* append(key of own entry p, value of own entry k)
@@ -104,6 +104,7 @@ ObsShapeOK(obs) ==
        /\ obs.em[j] = (IF Len(q) = 0 THEN 1 ELSE 0)
        /\ obs.bk[j] = Rev(IdsOf(q))
        /\ \A a, b2 \in 1..Len(q) : a # b2 => q[a].id # q[b2].id
+       /\ UniqueKeys(q)                                            \* a table: no key twice
   /\ \A a \in 1..Len(obs.c[1]), b2 \in 1..Len(obs.c[2]) : obs.c[1][a][3] # obs.c[2][b2][3]
 
 ResultOK(o, obs) ==
